@@ -128,6 +128,13 @@ func (r *Rng) igcDoc() []byte {
 		if forged && r.chance(1, 2) {
 			rec = rec[:len(rec)-r.Intn(5)]
 		}
+		if forged && r.chance(1, 3) {
+			// a sign where a digit belongs (the number reader takes "-1" for a number)
+			rec = "I" + []string{"-1", "-2", "-9", "+1", "-0", " 1"}[r.Intn(6)] + rec[3:]
+			if r.chance(1, 3) {
+				rec = rec[:3]
+			}
+		}
 		sb.WriteString(rec + eol)
 	}
 	nb := r.Intn(8)
